@@ -413,6 +413,11 @@ class FakeFS:
                     fs.files[path] = ""
                 self.methods = {
                     "write": lambda ev, call, a, kw: self._write(a[0]),
+                    "writelines": lambda ev, call, a, kw: [self._write(x) for x in (a[0].abs_iter() if hasattr(a[0], "abs_iter") else a[0])] and None,
+                    "readlines": lambda ev, call, a, kw: fs.files[self.path].splitlines(True),
+                    "flush": lambda ev, call, a, kw: None,
+                    "__enter__": lambda ev, call, a, kw: self,
+                    "__exit__": lambda ev, call, a, kw: None,
                     "read": lambda ev, call, a, kw: fs.files[self.path],
                     "close": lambda ev, call, a, kw: None,
                 }
@@ -454,6 +459,10 @@ def _check_files(res: Result, proj: Project, w: World):
         ("incomplete", [[{10}], [{2}, {10}], [{3}, {2}]]),
         ("single", [[{5}]]),
         ("with-empty-ranking", [[{1}, {2, 3}], [], [{3}]]),
+        # integers that no double represents exactly; names that read as floating-point numbers but not as integers
+        ("large-ints", [[{2 ** 53 + 1}, {2 ** 63 - 1}], [{12345678901234567890123}, {2 ** 53 + 1}]]),
+        ("number-like-names", [[{"1e3"}, {"2.5"}], [{"2.5"}, {"1e3"}]]),
+        ("infinity-like-names", [[{"inf"}, {"1e3"}], [{"nan", "Infinity"}]]),
     ]
     for k_, (label, raws) in enumerate(datasets):
         d = w.dataset(raws)
